@@ -263,6 +263,14 @@ func c14implNew(a []string) string {
 		return "err"
 	}
 	i2 := k2.CheckIntegrity()
+	// the same blob handed over inside a DN-with-binary value
+	k4 := &kcl.KeyCredential{}
+	if err := k4.ParseDNWithBinary(kcl.DNWithBinary{BinaryData: c14exact(b), DistinguishedName: "CN=via,DC=dn"}); err != nil {
+		return "ok dn-with-binary-parse-error"
+	}
+	if c14showFields(k4) != c14showFields(k2) || c14ser(k4) != c14ser(k2) {
+		return "ok dn-with-binary-parse-differs"
+	}
 	return fmt.Sprintf("ok blob=%s kh=%s integ=%s || %s integ2=%s reser=%s", hx(b), hx(k.KeyHash), c14b(i1), c14showFields(k2), c14b(i2), c14ser(k2))
 }
 
